@@ -31,6 +31,18 @@ type Stream struct {
 	MaxFrame  int        `json:"max_frame"` // len(rawFrame): 1024000 for ts (fixed in the code), chosen for tcp
 	Bursts    []Burst    `json:"bursts"`
 	Consumers []ConsSpec `json:"consumers"`
+	// standing dimensions of every kind: the log level the host runs at ("" = panic as in production, "debug",
+	// "trace": behaviour must be byte-identical), odd request headers on the websocket upgrades (X-Forwarded-For in
+	// all shapes, X-Real-Ip, Forwarded, shared X-Request-Id, garbage X-Request-Start, permessage-deflate offered),
+	// identical re-posts of the destination rules before the traffic starts
+	LogLevel string `json:"log_level,omitempty"`
+	Headers  bool   `json:"headers,omitempty"`
+	Reposts  int    `json:"reposts,omitempty"`
+	// agg: destination Leaver-1 (a plain hub client) leaves the stream half way; wsbig: client pings between the
+	// messages, and a last message that announces 5000 bytes, sends 1000 and drops the connection
+	Leaver     int  `json:"leaver,omitempty"`
+	Pings      bool `json:"pings,omitempty"`
+	BrokenTail bool `json:"broken_tail,omitempty"`
 	// websocket-out ("wsout"): Count hub messages of Blk bytes pushed through the hub towards a real websocket
 	// client of /ws/<feed> that reads ReadBurst messages, pauses ReadPauseUs, ... with a receive buffer of Rcvbuf
 	Blk         int `json:"blk,omitempty"`
@@ -326,6 +338,9 @@ func (s Stream) bigMatch(got [][]byte) []int {
 func (s Stream) coqBig() string {
 	o := s.Obs
 	nd := len(s.SlowUs)
+	for len(o.PerDest) < nd {
+		o.PerDest = append(o.PerDest, nil)
+	}
 	idx := make([][]int, nd)
 	pos := make([]int, nd)
 	for d := 0; d < nd; d++ {
@@ -369,6 +384,9 @@ func (s Stream) coqBig() string {
 func (s Stream) coqAgg() string {
 	o := s.Obs
 	nd := len(s.DestKinds)
+	for len(o.PerDest) < nd { // the stream did not complete
+		o.PerDest = append(o.PerDest, nil)
+	}
 	next := make([]int, nd) // position in each destination's received list
 	evs := []string{}
 	tap := []string{}
@@ -486,6 +504,14 @@ func (s Stream) coq() string {
 }
 
 func (s Stream) describe() string {
+	d := s.describeKind()
+	if s.LogLevel != "" || s.Headers || s.Reposts > 0 || s.Leaver > 0 || s.Pings || s.BrokenTail {
+		d += fmt.Sprintf(" [log level %q, odd upgrade headers %v, identical rule re-posts %d, leaver %d, pings %v, broken last message %v]", s.LogLevel, s.Headers, s.Reposts, s.Leaver, s.Pings, s.BrokenTail)
+	}
+	return d
+}
+
+func (s Stream) describeKind() string {
 	var sb strings.Builder
 	if s.Kind == "wsout" {
 		return fmt.Sprintf("wsout stream %q seed=%d: %d hub messages of %d bytes towards a websocket client of /ws/<feed> that reads %d messages then pauses %d us (SO_RCVBUF %d)",
@@ -542,6 +568,27 @@ func (s Stream) describe() string {
 // ---------------------------------------------------------------- generator
 
 func genStream(r *lib.Rng, kind string, i int) Stream {
+	s := genStreamKind(r, kind, i)
+	s.LogLevel = []string{"", "", "", "trace", "trace", "debug"}[r.Intn(6)]
+	s.Headers = r.Chance(1, 2)
+	switch kind {
+	case "agg":
+		s.Reposts = []int{0, 0, 1, 2}[r.Intn(4)]
+		for d, k := range s.DestKinds {
+			if k == "hub" && r.Chance(1, 4) {
+				s.Leaver = d + 1
+				break
+			}
+		}
+	case "dest", "wstext":
+		s.Reposts = []int{0, 1, 2}[r.Intn(3)]
+	case "wsbig":
+		s.Pings, s.BrokenTail = r.Chance(1, 2), r.Chance(1, 2)
+	}
+	return s
+}
+
+func genStreamKind(r *lib.Rng, kind string, i int) Stream {
 	s := Stream{Kind: kind, Name: fmt.Sprintf("%s%d", kind, i), Seed: uint64(r.Intn(1 << 20))}
 	if kind == "wsbig" {
 		n := r.Range(8, 24)
@@ -703,6 +750,13 @@ func corpus(tier string) []Stream {
 		// bursts of large frames towards subscribers that are briefly busy: nothing may arrive late
 		{Kind: "wsbig", Name: "wsbig-large-bursts-slow-subscribers", Sizes: []int{65536, 65537, 70000, 65536, 100000, 65536, 4096, 65536, 65535, 65536, 80000, 65536, 65536, 1000, 65536, 65536, 131072, 65536, 65536, 65536, 200, 65536, 65536, 65536},
 			Frags: make([]int, 24), BurstLen: 6, GapUs: 1500, SlowUs: []int{1000, 2500, 300}},
+		// the same at trace log level, with odd upgrade headers and with the destination rules re-posted unchanged
+		{Kind: "agg", Name: "agg-repost-trace", Seed: 76, Blk: 64, Count: 80, Feeds: 2, Order: "rule-first", DestKinds: []string{"rwc", "hub", "rwc"}, LogLevel: "trace", Headers: true, Reposts: 2},
+		{Kind: "agg", Name: "agg-repost-leaver", Seed: 77, Blk: 64, Count: 80, Feeds: 1, Order: "dest-first", DestKinds: []string{"hub", "rwc", "hub"}, Reposts: 1, Leaver: 1},
+		{Kind: "rev", Name: "rev-trace", Seed: 78, LogLevel: "trace", Headers: true, Consumers: []ConsSpec{{Cap: 1, Policy: "queue"}},
+			Bursts: []Burst{{Chunks: []int{40, 33, 200}, GapUs: []int{0, 0, 0}, PauseMs: 5}, {Chunks: []int{32, 1000, 35}, GapUs: []int{0, 0, 0}, PauseMs: 5}}},
+		{Kind: "dest", Name: "dest-repost-debug", Seed: 79, Blk: 256, Count: 600, CutMin: 3, CutMax: 8, LogLevel: "debug", Reposts: 2},
+		{Kind: "wsbig", Name: "wsbig-pings-broken-tail-trace", Sizes: []int{40, 4096, 33, 70000, 100}, Frags: []int{0, 0, 2, 0, 3}, BurstLen: 1, GapUs: 500, SlowUs: []int{0, 300}, LogLevel: "trace", Headers: true, Pings: true, BrokenTail: true},
 		// several destinations on one aggregated stream, registered before the stream rule is added / re-submitted
 		{Kind: "agg", Name: "agg-dest-first", Seed: 73, Blk: 64, Count: 80, Feeds: 2, Order: "dest-first", DestKinds: []string{"hub", "hub", "rwc"}},
 		{Kind: "agg", Name: "agg-resubmit", Seed: 74, Blk: 64, Count: 80, Feeds: 1, Order: "resubmit", DestKinds: []string{"hub", "rwc"}},
